@@ -436,7 +436,7 @@ fn gen_src(rng: &mut Rng) -> String {
 const TARGETS: &[(&str, &[&str], &[&str])] = &[
   (r#"{"pattern":"var $A = $B"}"#, &["let $A = $B", "const $A = $B;", "$B", ""], &["no var $A", "use let for $A = $B", ""]),
   (r#"{"pattern":"foo($$$A)"}"#, &["bar($$$A)", "foo()", "[$$$A]"], &["foo called with $$$A", "foo"]),
-  (r#"{"pattern":"console.log($A)"}"#, &["log($A)", "", "{\n  $A\n}"], &["no console: $A", "$A $A"]),
+  (r#"{"pattern":"console.log($A)"}"#, &["log($A)", "", "{\n  $A\n}"], &["no console: $A", "$A $A", "no console\nuse the logger of the module", "no console: $A\n  second line\nthird"]),
   (r#"{"kind":"number"}"#, &["0", "", "(9)"], &["number", ""]),
   (r#"{"kind":"pair"}"#, &["k: 0", ""], &["a pair"]),
   (r#"{"kind":"identifier","regex":"^[abé]$"}"#, &["z", "", "zz_中"], &["short name", "ident é"]),
@@ -445,6 +445,8 @@ const TARGETS: &[(&str, &[&str], &[&str])] = &[
   (r#"{"any":[{"kind":"expression_statement"},{"kind":"call_expression"}]}"#, &["X", "x()"], &["stmt or call"]),
   (r#"{"any":[{"kind":"member_expression"},{"kind":"identifier","regex":"^console$"}]}"#, &["m"], &["member"]),
   (r#"{"pattern":"$F($$$ARGS)","has":{"kind":"arguments","has":{"kind":"number"}}}"#, &["$F()", "call($$$ARGS)"], &["call $F with number", "$F: $$$ARGS"]),
+  // two kinds whose nodes TOUCH without nesting (callee and argument list of one call)
+  (r#"{"any":[{"kind":"identifier","regex":"^(foo|f|bar)$"},{"kind":"arguments"}]}"#, &["X", "", "(0)"], &["callee or arguments", "touching\nnodes"]),
   (r#"{"kind":"ERROR"}"#, &["", "/* syntax */"], &["syntax error", "syntax error here"]),
   (r#"{"kind":"ERROR","pattern":"$E"}"#, &["$E"], &["syntax error near $E"]),
 ];
@@ -857,9 +859,22 @@ fn edit_oracle(obs: &EditObs, expanded: bool) -> Vec<(String, Value)> {
     None => fail("json/lib-replace-all", json!({"lib": obs.lib_all})),
     Some(all) => {
       let announced: Vec<Value> = cli.iter().map(|(s, e, t)| json!([s, e, t])).collect();
-      let foreign: Vec<&Value> = all.iter().filter(|e| !announced.contains(e)).collect();
-      if !foreign.is_empty() || all.first().cloned().unwrap_or(Value::Null) != first || (all.is_empty() != cli.is_empty()) {
-        fail("json/lib-replace-all", json!({"json": announced, "replace_all": all}));
+      // the outermost matches in document order: a match is skipped when it lies inside the match
+      // kept before it (match ranges `e[0]..e[1]` of the records, which come in pre-order)
+      let mut outer: Vec<Value> = vec![];
+      let mut last_end = 0usize;
+      let mut any = false;
+      for (e, edit) in js.iter().zip(&announced) {
+        let (ms, me) = (e[0].as_u64().unwrap_or(0) as usize, e[1].as_u64().unwrap_or(0) as usize);
+        if any && ms < last_end {
+          continue;
+        }
+        any = true;
+        last_end = me;
+        outer.push(edit.clone());
+      }
+      if *all != outer {
+        fail("json/lib-replace-all", json!({"json": announced, "outermost": outer, "replace_all": all}));
       }
     }
   }
